@@ -59,6 +59,7 @@ func runOne(seed uint64, n int, c cfg) ([]byte, error) {
 	po.ForeignInputs = c.probes["foreign"]
 	po.CoinbaseGames = !c.probes["nocbgames"]
 	po.AlreadyMined = !c.probes["nomined"]
+	po.UnseenParents = c.probes["unseen"]
 	h.SetPendOpt(po)
 	nW := 1 + r.Intn(2)
 	for i := 0; i < nW; i++ {
@@ -126,6 +127,9 @@ func runOne(seed uint64, n int, c cfg) ([]byte, error) {
 	if c.probes["foreign"] {
 		todo["foreign"] = true
 	}
+	if c.probes["unseen"] {
+		todo["unseen"] = true
+	}
 	// the two directed shapes of repaired findings stay in the ordinary mix
 	if r.Chance(25) {
 		todo["simul"] = true
@@ -134,9 +138,9 @@ func runOne(seed uint64, n int, c cfg) ([]byte, error) {
 		todo["mined"] = true
 	}
 	steps := 10 + r.Intn(30)
-	for s := 0; s < steps || (c.probes["foreign"] && len(todo) > 0 && s < 80); s++ {
+	for s := 0; s < steps || ((c.probes["foreign"] || c.probes["unseen"]) && len(todo) > 0 && s < 80); s++ {
 		if len(todo) > 0 && len(queue) == 0 && h.N.Height() >= 6 {
-			for _, p := range []string{"simul", "mined", "foreign"} {
+			for _, p := range []string{"simul", "mined", "foreign", "unseen"} {
 				if todo[p] {
 					done, err := h.Scenario(p)
 					if err != nil {
@@ -328,7 +332,7 @@ func main() {
 	workers := flag.Int("j", 12, "parallel worker processes")
 	lag := flag.Bool("lag", true, "let announcements lag")
 	mode := flag.String("mode", "c09", "c09 | c10")
-	probes := flag.String("probes", "", "comma separated: foreign (shape of the recorded finding stale-pending:foreign-input); nosimul,nomined,nocbgames switch ordinary shapes off")
+	probes := flag.String("probes", "", "comma separated: foreign, unseen (shapes of the findings stale-pending:foreign-input / stale-pending:unseen-parent); nosimul,nomined,nocbgames switch ordinary shapes off")
 	warm := flag.Int("warmup", 0, "MASSIP0002 warm-up height (0: leave the consensus value)")
 	first := flag.Int("first", 0, "index of the first history (replay: -first k -n 1)")
 	restart := flag.Bool("restart", true, "restart the wallet process now and then")
